@@ -205,3 +205,39 @@ def r4(ctx, R):
         first = [ast.unparse(s.value) for s in walk_no_nested(fn) if isinstance(s, (ast.Assign, ast.AnnAssign)) and ast.unparse(s.targets[0] if isinstance(s, ast.Assign) else s.target) == 'self.MS']
         ok = first in (['[Step(description)]'], ['[]']) and bool(app) and all(a == 'dill.copy(self.MS[0])' or re.fullmatch(r'(\w+\.)?Step\(description\)', a) for a in app)
         R.check(ok, f'{cn}.__init__ :: steps are independent objects', w, 'self.MS = [Step(description)]; append dill.copy(self.MS[0]) | Step(description)', {'first': first, 'appended': app})
+
+
+@rule('C19', 'C19.R5', 'k-dependent preconditioner matrices are rebuilt at every sweep index, so none survives from an earlier sweep or run (shared with C02.R6)', floor=4)
+def r5(ctx, R):
+    from . import c02
+    c02.r6(ctx, R)
+
+
+@rule('C19', 'C19.R6', 'statistics handed out are never reused: reset_stats rebinds a new dict, return_stats merges into a new dict', floor=3)
+def r6(ctx, R):
+    repo = ctx.repo
+    HK = 'pySDC/core/hooks.py'
+    fn = repo.func(HK, 'Hooks.reset_stats')
+    st = [s for s in walk_no_nested(fn) if isinstance(s, ast.Assign) and ast.unparse(s.targets[0]).endswith('__stats')]
+    calls = [ast.unparse(c.func) for c in ast.walk(fn) if isinstance(c, ast.Call)]
+    ok = len(st) == 1 and ast.unparse(st[0].value) in ('{}', 'dict()') and not any(c.endswith('.clear') for c in calls)
+    R.check(ok, 'Hooks.reset_stats :: rebinds a fresh dict (the old one may still be referenced by the caller of the previous run)', f'{HK}:Hooks.reset_stats', 'self.__stats = {}', [ast.unparse(s) for s in st] + calls)
+    rs = repo.func(HK, 'Hooks.return_stats')
+    R.check([ast.unparse(s.value) for s in walk_no_nested(rs) if isinstance(s, ast.Return)] == ['self.__stats'], 'Hooks.return_stats :: returns the live dict (hence the two rules around it)', f'{HK}:Hooks.return_stats', 'return self.__stats', 'see source')
+    CT = 'pySDC/core/controller.py'
+    fn = repo.func(CT, 'Controller.return_stats')
+    w = f'{CT}:Controller.return_stats'
+    R.fn(w)
+    ret = [s for s in walk_no_nested(fn) if isinstance(s, ast.Return) and s.value is not None]
+    ok = len(ret) == 1 and isinstance(ret[0].value, ast.Name)
+    detail = []
+    if ok:
+        v = ret[0].value.id
+        defs = sorted([s for s in walk_no_nested(fn) if isinstance(s, ast.Assign) and ast.unparse(s.targets[0]) == v], key=lambda s: s.lineno)
+        fresh = [isinstance(s.value, ast.Dict) or ast.unparse(s.value) == 'dict()' for s in defs]
+        inplace = [ast.unparse(c) for c in ast.walk(fn) if isinstance(c, ast.Call) and isinstance(c.func, ast.Attribute) and c.func.attr in ('update', 'setdefault', '__setitem__') and ast.unparse(c.func.value) == v]
+        # in-place growth of the accumulator is fine only if the accumulator itself started as a fresh dict
+        first_fresh = bool(defs) and (isinstance(defs[0].value, ast.Dict) and not defs[0].value.keys or ast.unparse(defs[0].value) == 'dict()')
+        ok = all(fresh) and first_fresh
+        detail = [ast.unparse(s) for s in defs] + inplace
+    R.check(ok, 'Controller.return_stats :: the merged statistics are a new dict, never the dict of one of the hooks', w, 'stats = {}; stats = {**stats, **hook.return_stats()}', detail)
